@@ -40,7 +40,7 @@ FLOORS = {
 }
 TIMEOUT_S = {"quick": 1500, "thorough": 5400}
 N_CASES = {"quick": 64, "thorough": 640}
-FAMILY_CYCLE = ["mixed", "builtin", "probe", "mixed"]
+FAMILY_CYCLE = ["mixed", "builtin", "probe", "bare"]
 
 
 def plan(tier, seed):
@@ -144,8 +144,8 @@ def run_case(case, ctx):
                 sampled = True
                 ctx.sample({"program": spec.show(prog), "old_args": vals0, "new_args": vals1,
                             "constrained": d0["constrained"], "weight": gfi.fnum(res[1])})
-    # Trace.update convenience form
-    if paths:
+    # Trace.update convenience form (a method of real traces; the bare adapter has none)
+    if paths and not prog.get("bare"):
         refc = R.run(prog, vals0, chooser=R.prior_chooser(rng, safe=True))
         s1 = frozenset([sorted(paths)[0]])
         cons_np = R.restrict(refc.choices, s1)
